@@ -59,6 +59,11 @@ DOC = [
                             ("setv", "res2", ("lfor", "lfor", [("for", "y", 1)], ("ref", "r2", "x"))),
                             ("ref", "r3", "y")]),
       ("call", ("sym", "main"), []), ("ref", "r4", "x")]),
+    ("witness:closure inside a comprehension whose variable shadows a let binding",
+     [("let", [("x", ("lit", 100))],
+       [("setv", "res1", ("lfor", "lfor", [("for", "x", 3)], ("call", ("fn", [], [("ref", "r1", "x")]), []))),
+        ("setv", "res2", ("lfor", "lfor", [("for", "x", 2)], ("lfor", "lfor", [("for", "y", 2)], ("ref", "r2", "x")))),
+        ("ref", "r3", "x")])]),
     ("witness:class attribute hides let binding",
      [("let", [("x", ("lit", 1))],
        [("class", "C1", [("x", 2)], [("defn", "m", ["self"], [("ref", "r1", "x")])]), ("callm", "C1", "m")])]),
